@@ -30,7 +30,12 @@ ANCHORS = [
 
 async def consume(engine, req, w, limit=64):
     out = []
-    async for resp in engine.subscribe(req.text, operation_name=req.op_name, context={"world": w}, variables=req.variables):
+    kw = {}
+    if getattr(req, "sub_initial_value", False):
+        # the request's own initial_value is the parent of the SOURCE; every response is computed from its event
+        # (null events included), never from this object
+        kw["initial_value"] = w.root_object(w.s.subscription, "init")
+    async for resp in engine.subscribe(req.text, operation_name=req.op_name, context={"world": w}, variables=req.variables, **kw):
         out.append(resp)
         if len(out) > limit:
             break
@@ -91,6 +96,9 @@ async def run_case(ctx, rng, index):
             do = docgen.DocOpts(op_kinds=("subscription",), max_fields=rng.choice([4, 8, 12]), max_depth=rng.choice([2, 3, 4]))
             req = X.gen_request(rng, s, do)
             req.use_root = False
+            req.sub_initial_value = rng.random() < 0.4
+            if req.sub_initial_value:
+                st.inc("streams_with_initial_value")
             n = rng.choice([0, 1, 2, 3, 3, 5, 8])
             events = [rng.choice(["obj", "obj", "obj", "null"]) for _ in range(n)]
             case = dict(req.describe(), sdl=b.sdl, events=events)
@@ -221,6 +229,29 @@ async def run_case(ctx, rng, index):
                         ctx.violation("source-started-for-invalid-request", "reused fragment name: %s" % (wb.source_log[:2],), dict(case, query=d2.text))
                 except Exception as e:  # noqa
                     ctx.violation("subscribe-raised", "invalid request (reused fragment name): %r" % e, case)
+            # the SAME root field under a second alias: two response keys, still one field name
+            if req.op.selset and req.op.selset[0].kind == "field" and len(req.op.selset) == 1:
+                import copy
+                d2 = copy.deepcopy(req.doc)
+                op2 = [o for o in d2.ops if o.name == req.op.name][0]
+                twin = copy.deepcopy(op2.selset[0])
+                twin.alias = "secondAlias_"
+                op2.selset.append(twin)
+                docgen.print_doc(d2, rng, {"multiline": False, "nl": "\n", "shorthand": True})
+                bad = X.Request(d2, d2.text, op2, req.variables, req.wseed, False, req.pass_opname)
+                wb = world_mod.World(s, req.wseed)
+                wb.events = ["obj", "obj"]
+                try:
+                    gotb = await consume(b.engine, bad, wb)
+                    st.inc("evaluations")
+                    st.inc("invalid_requests_same_field_two_aliases")
+                    if len(gotb) != 1 or gotb[0].get("data") is not None or not gotb[0].get("errors"):
+                        ctx.violation("invalid-subscription-not-single-error", "same root field under two aliases: %s" % X.jdump(gotb)[:300],
+                                      dict(case, query=d2.text))
+                    if wb.source_log or wb.calls:
+                        ctx.violation("source-started-for-invalid-request", "same root field under two aliases: %s" % (wb.source_log[:2],), dict(case, query=d2.text))
+                except Exception as e:  # noqa
+                    ctx.violation("subscribe-raised", "invalid request (two aliases of one root field): %r" % e, case)
             if len(events) >= 2:
                 st.distinct("nontrivial", (b.sdl, req.text, canon(req.variables), req.wseed, tuple(events), sorted(faults.items())))
             st.sample({"query": req.text[:500], "events": events, "faults": case["faults"], "responses": X.jdump(got)[:600]}, limit=2)
